@@ -54,13 +54,7 @@ def gen_cfg(rnd, k, opts=None):
                 view[(i, j)] = ["%sIF%d" % (P, j)]
             else:
                 view[(i, j)] = ["*%sT%d" % (P, j)]
-    # wire.Struct with "*" or with an explicit list of all its fields, in an order of its own
     sfields = {}
-    for i in range(n):
-        if kinds[i] == "struct" and rnd.random() < 0.6:
-            perm = list(range(sum(len(view[(i, j)]) for j in deps[i])))
-            rnd.shuffle(perm)
-            sfields[i] = perm
     cfg = dict(name="Init" + P, prefix=P, n=n, deps=deps, kinds=kinds, binds=sorted(binds), fall=fall, args=used_args, argdeps=argdeps, sfields=sfields,
                view={"%d,%d" % k_: v for k_, v in view.items()}, nfields=nfields,
                reterr=any(fall.values()) or rnd.random() < 0.2)
@@ -102,6 +96,13 @@ def gen_cfg(rnd, k, opts=None):
             j = int(key.split(",")[1])
             if j in cfg["gamma_iface"] and v[0].startswith(P + "IF"):
                 cfg["view"][key] = ["sink." + v[0]]
+    # wire.Struct with "*" or with an explicit list of ALL its fields, in an order of its own (computed last: the external
+    # providers added above may have become further fields of a struct)
+    for i in range(n):
+        if kinds[i] == "struct" and rnd.random() < 0.6:
+            perm = list(range(sum(len(cfg["view"]["%d,%d" % (i, j)]) for j in deps[i])))
+            rnd.shuffle(perm)
+            sfields[i] = perm
     cfg["layout"] = make_sets(rnd, cfg)
     return cfg
 
